@@ -579,3 +579,37 @@ Fixpoint eval_opt (rho : valuation) (e : expr) : option Q :=
       end
   end.
 
+
+(* ------------------------------------------------------------------ the same checkers, reporting the path taken *)
+(* For the evidence of a run: WHICH part of the checker validated an output - the coefficientwise comparison of polynomial
+   normal forms, the structural rounding relation with the output itself as the exactly-equivalent expression, or the
+   structural rounding of an (untrusted) hint.  [check_pre_tr] / [check_expr_path] compute the verdict of [check_pre] /
+   [check_expr] (C13_traced_pre_same / C13_traced_expr_same) and the evidence at once. *)
+Inductive vpath := VPoly | VSelf | VHint.
+
+Definition mid_path (o : cond) (m : mcond) : vpath :=
+  match m with
+  | MPoly _ _ _ => VPoly
+  | MExact c => if cond_eqb c o then VSelf else VHint
+  end.
+
+Definition check_pre_tr (d : nat) (hs conds out : list cond) : bool * list mcond :=
+  let eqs := filter is_eq conds in
+  let use := fun c => if is_eq c then [] else eqs in
+  let covers := map (fun c => (c, cover d (use c) hs out c)) conds in
+  let mids := flat_map snd covers in
+  (forallb (fun cc => match snd cc with [] => trivial (fst cc) || implied (use (fst cc)) (fst cc) | _ => true end) covers &&
+   forallb (fun o => existsb (fun m => rounds_to d m o) mids) out, mids).
+
+(* the path by which each output condition was validated: the first mid condition it is a rounding of *)
+Definition out_paths (d : nat) (mids : list mcond) (out : list cond) : list (option vpath) :=
+  map (fun o => match find (fun m => rounds_to d m o) mids with Some m => Some (mid_path o m) | None => None end) out.
+
+Definition check_expr_path (d : nat) (hs : list expr) (e o : expr) : option vpath :=
+  if match pnorm e, pnorm o with
+     | Some p, Some q => close_b (tol_of d) p q
+     | _, _ => false
+     end then Some VPoly
+  else if (if eround_b (tol_of d) o o then equiv_b e o else false) then Some VSelf
+  else if existsb (fun h => if eround_b (tol_of d) h o then equiv_b e h else false) hs then Some VHint
+  else None.
